@@ -185,6 +185,11 @@ func (r *run) crypt(op map[string]any, ln *Line) {
 	_, b2, _ := r.source("server", s, pair{"none", "none", "none"}).X25519EncryptionKey()
 	ln.Obs.SameSecret = a != nil && bytes.Equal(a, b2)
 	msg, out := r.message(str(op, "msg"))
+	if d, _ := op["dirty"].(bool); d {
+		// the receiver decrypts into a message value it has used before
+		junk, _ := r.message(str(op, "msg"))
+		proto.Merge(out, junk)
+	}
 	ct, err := nodeenrollment.EncryptMessage(r.w.Ctx, msg, sender)
 	if err != nil {
 		ln.Res = "encrypt-error"
@@ -290,7 +295,12 @@ func (r *run) rec(op map[string]any, ln *Line) {
 	st := rs.AsStorage()
 	var opts, other []nodeenrollment.Option
 	if wrapOn {
-		opts = append(opts, nodeenrollment.WithStorageWrapper(w.Wrappers["SW"]))
+		if rot, _ := op["rot"].(bool); rot {
+			// the wrapper's encrypting key is rotated between the store and the first load
+			opts = append(opts, nodeenrollment.WithStorageWrapper(world.NewRotWrapper("ROT", r.rng)))
+		} else {
+			opts = append(opts, nodeenrollment.WithStorageWrapper(w.Wrappers["SW"]))
+		}
 	}
 	if ws, _ := op["withState"].(bool); ws {
 		// an application that also passes state along with the wrapper
